@@ -80,6 +80,6 @@ Definition scalar_ok (k : kind) (v : val) : bool :=
   | (KInt64 | KSint64 | KSfixed64), VInt z => in_sb 64 z
   | (KUint32 | KFixed32 | KFloat), VInt z => in_ub 32 z
   | (KUint64 | KFixed64 | KDouble), VInt z => in_ub 64 z
-  | (KString | KBytes), VBytes b => forallb byte_ok b
+  | (KString | KBytes), VBytes b => forallb byte_ok b && (Z.of_nat (length b) <? 2 ^ 63)   (* Go: len fits int *)
   | _, _ => false
   end.
